@@ -1,0 +1,86 @@
+//go:build verif
+
+// Machine-checked contracts for package timer (comment-only; read by /verif/gocv).
+
+package timer
+
+// dateTimeTimer: f is called at most once, and only directly after a value v >= t was received from the
+// clock's channel (never early); after the call, or after the context ended, the timer returns (never again).
+//@ func dateTimeTimer
+//@   prop C13 C07
+//@   requires f != nil
+//@   ensures [fires-at-most-once] ncalls(f) <= old(ncalls(f)) + 1
+//@   ensures [never-early] forall p int :: old(evlen) <= p && p < evlen && isCall(ev(p)) ==>
+//@             p > old(evlen) && isRecv(ev(p - 1)) && intval(evval(ev(p - 1))) >= t
+//@   ensures [fired-or-cancelled] ncalls(f) == old(ncalls(f)) + 1 ||
+//@             (ncalls(f) == old(ncalls(f)) && isRecv(ev(evlen - 1)) && evch(ev(evlen - 1)) == ctxdone(ctx))
+//@   loop 1 for
+//@     invariant evlen == old(evlen) && ncalls(f) == old(ncalls(f))
+
+// recurringTimer with repetition count n (n == -1: unbounded).  `fired` = ncalls(f) - old(ncalls(f)).
+//@ func recurringTimer
+//@   prop C13 C07
+//@   requires f != nil && final != nil && f != final && fncode(f) != fncode(final)
+//@   requires interval.Repititions >= -1 && interval.Interval.Start != nil
+//@   ensures [at-most-n] interval.Repititions >= 0 ==> ncalls(f) - old(ncalls(f)) <= interval.Repititions
+//@   ensures [zero-never-fires] interval.Repititions == 0 ==> ncalls(f) == old(ncalls(f))
+//@   ensures [exactly-n-unless-cancelled] interval.Repititions >= 0 && interval.Interval.End == nil ==>
+//@             ncalls(f) - old(ncalls(f)) == interval.Repititions ||
+//@             (exists p int :: old(evlen) <= p && p < evlen && isRecv(ev(p)) && evch(ev(p)) == ctxdone(ctx))
+//@   ensures [final-at-most-once] ncalls(final) <= old(ncalls(final)) + 1
+//@   ensures [no-firing-after-final] forall p int, q int :: old(evlen) <= p && p < q && q < evlen &&
+//@             isCall(ev(p)) && evch(ev(p)) == fncode(final) ==> !(isCall(ev(q)) && evch(ev(q)) == fncode(f))
+//@   loop 1 for
+//@     invariant repetitions >= -1 && (interval.Repititions >= 0 ==> repetitions >= 0)
+//@     invariant interval.Repititions >= 0 ==> ncalls(f) - old(ncalls(f)) + repetitions <= interval.Repititions
+//@     invariant interval.Repititions >= 0 && interval.Interval.End == nil ==> ncalls(f) - old(ncalls(f)) + repetitions == interval.Repititions
+//@     invariant interval.Repititions == -1 ==> repetitions == -1
+//@     invariant ncalls(final) == old(ncalls(final)) && ncalls(f) >= old(ncalls(f))
+//@     invariant interval.Interval.End == nil ==> endTimer == nil
+//@     invariant forall p int :: old(evlen) <= p && p < evlen ==> !(isRecv(ev(p)) && evch(ev(p)) == ctxdone(ctx))
+//@     invariant forall p int :: old(evlen) <= p && p < evlen ==> !(isCall(ev(p)) && evch(ev(p)) == fncode(final))
+//@     iter ensures [one-interval-apart] forall p int :: old(evlen) <= p && p < evlen && isCall(ev(p)) && evch(ev(p)) == fncode(f) ==>
+//@             p > old(evlen) && isRecv(ev(p - 1)) && intval(evval(ev(p - 1))) >= old(t) + interval.Interval.Duration.Duration
+//@     iter ensures [at-most-one-firing-per-round] ncalls(f) <= old(ncalls(f)) + 1
+
+//@ spec func oneKind(definition schema.TimerEventDefinition) bool =
+//@   (second(definition.TimeDate()) && !second(definition.TimeCycle()) && !second(definition.TimeDuration())) ||
+//@   (!second(definition.TimeDate()) && second(definition.TimeCycle()) && !second(definition.TimeDuration())) ||
+//@   (!second(definition.TimeDate()) && !second(definition.TimeCycle()) && second(definition.TimeDuration()))
+
+// New: exactly one of date / cycle / duration must be defined; one timer goroutine at most.
+//@ func New
+//@   prop C13
+//@   ensures [invalid-combination-is-an-error] !oneKind(definition) ==> err != nil && ch == nil &&
+//@             forall p int :: old(evlen) <= p && p < evlen ==> !isSpawn(ev(p))
+//@   ensures [started-timer-has-a-fresh-unbuffered-channel] err == nil ==> ch != nil && fresh(ch) && chancap(ch) == 0 && !closed(ch)
+//@   ensures [at-most-one-timer-goroutine] forall p int, q int :: old(evlen) <= p && p < q && q < evlen && isSpawn(ev(p)) ==> !isSpawn(ev(q))
+//@   ensures [error-starts-nothing] err != nil ==> forall p int :: old(evlen) <= p && p < evlen ==> !isSpawn(ev(p))
+
+// firing callbacks: a date/duration timer delivers its definition once and closes the channel;
+// a cycle timer delivers once per firing and closes in `final`.
+//@ func New$1
+//@   prop C13
+//@   requires ch != nil && !closed(ch)
+//@   ensures evlen == old(evlen) + 2 && isSend(ev(old(evlen))) && evch(ev(old(evlen))) == ch && isClose(ev(old(evlen) + 1)) && closed(ch)
+//@ func New$2
+//@   prop C13
+//@   ensures evlen == old(evlen) + 1 && isSend(ev(old(evlen))) && evch(ev(old(evlen))) == ch
+//@ func New$3
+//@   prop C13
+//@   requires ch != nil && !closed(ch)
+//@   ensures evlen == old(evlen) + 1 && isClose(ev(old(evlen))) && closed(ch)
+//@ func New$4
+//@   prop C13
+//@   requires ch != nil && !closed(ch)
+//@   ensures evlen == old(evlen) + 2 && isSend(ev(old(evlen))) && evch(ev(old(evlen))) == ch && isClose(ev(old(evlen) + 1)) && closed(ch)
+
+// event.go: the relay goroutine hands exactly one timer event to the instance per firing it receives and
+// stops when the timer channel is closed or the context ends.
+//@ func (*eventDefinitionInstanceBuilder).NewEventDefinitionInstance$1
+//@   prop C13 C07
+//@   loop 1 for
+//@     invariant true
+//@     iter ensures [one-event-per-firing] isRecv(ev(old(evlen))) && evch(ev(old(evlen))) == timer ==>
+//@       isCall(ev(old(evlen) + 1)) && evch(ev(old(evlen) + 1)) == code("event|IConsumer.ConsumeEvent") &&
+//@       forall p int :: old(evlen) + 2 <= p && p < evlen ==> !(isCall(ev(p)) && evch(ev(p)) == code("event|IConsumer.ConsumeEvent"))
